@@ -274,6 +274,18 @@ def _uf_apply(fname, args):
     eng.kinds[str(v)] = "real"
     res = Q(v)
     UF.apps.append((fname, args, res))
+    try:
+        zero = Q.lift(0)
+        half = z3.RealVal("1/2")
+        a = args[0]
+        ge0 = bor(zero._lt(a), a._eq(zero))
+        le0 = bor(a._lt(zero), a._eq(zero))
+        for ax in (z3.And(v >= 0, v <= 1), bz(bor(bnot(ge0), v >= half)), bz(bor(bnot(le0), v <= half))):
+            eng.assumptions_uf.append(ax)
+            if eng._solver is not None:
+                eng._solver.add(ax)
+    except Unsupported:
+        pass
     return res
 
 
